@@ -379,3 +379,48 @@ def _bool_of_result(ix: Index, v) -> Optional[bool]:
             if isinstance(a, K) and isinstance(a.v, bool):
                 return a.v
     return None
+
+
+# ------------------------------------------------------------------ REC sweep over the packages a property rests on
+
+def sweep_records(c: Check, rule: str, prefixes, floor: int = 1) -> int:
+    """REC over every data class of the given packages: (1) tuple records - a property named like a constructor
+    parameter reads the slot that stores that parameter; (2) plain classes - a property named like a constructor
+    parameter that returns `self.<attr>` returns the attribute the constructor assigns directly from that parameter.
+    A record whose fields are swapped hands every user the wrong value although each user reads it "correctly"."""
+    ix = c.ix
+    judged = 0
+    for name in ix.all_module_names():
+        if not any(name == p or name.startswith(p + '.') for p in prefixes):
+            continue
+        t = ix.text(name)
+        if 'class ' not in t:
+            continue
+        m = ix.module(name)
+        for cls in m.all_classes:
+            lay = record_layout(ix, cls)
+            if lay is not None and lay[0].cls is cls:
+                judged += check_record(c, rule, cls, required=False)
+                continue
+            init = cls.methods.get('__init__')
+            if init is None or not init.self_name:
+                continue
+            params = {p.arg for p in init.params[1:]}
+            stored: Dict[str, set] = {}
+            for st in walk_own(init.node):
+                if isinstance(st, ast.Assign) and len(st.targets) == 1 and isinstance(st.targets[0], ast.Attribute) \
+                        and isinstance(st.targets[0].value, ast.Name) and st.targets[0].value.id == init.self_name \
+                        and isinstance(st.value, ast.Name) and st.value.id in params:
+                    stored.setdefault(st.targets[0].attr, set()).add(st.value.id)
+            for pn, f in sorted(cls.methods.items()):
+                if not f.is_property or pn not in params:
+                    continue
+                r = single_return_expr(f)
+                if isinstance(r, ast.Attribute) and isinstance(r.value, ast.Name) and r.value.id == f.self_name \
+                        and r.attr in stored:
+                    judged += 1
+                    c.expect(stored[r.attr] == {pn}, rule, '%s.%s' % (cls.key, pn),
+                             'property %s returns self.%s, which the constructor sets from parameter %s (expected %r)' % (
+                                 pn, r.attr, sorted(stored[r.attr]), pn), f.loc())
+    c.floor(rule, 'record properties judged in %s' % (', '.join(prefixes)), judged, floor)
+    return judged
